@@ -97,6 +97,8 @@ func (c *cache) flushScheduler() {
 						for _, queued := range b {
 							c.flushObjs.Delete(queued)
 						}
+						// addr is marked but may not be a part of b yet
+						c.flushObjs.Delete(addr)
 						break addrLoop
 					case c.flushCh <- b:
 						verifhook.Point("writecache.sched.handed")
